@@ -1275,6 +1275,10 @@ class Exec:
                 return self.contracts[name](self, f, args, kwargs)
             if name in self.inline or '*' in self.inline or f.info.module == 'pgns' and 'pgns.*' in self.inline:
                 return self.call_function(f.info, args, kwargs, f.bound)
+            if f'{f.info.module}.*' in self.inline:
+                # helper of the same module without a contract of its own: verified inlined, and reported as such
+                self.dropped.add(f'inlined without own contract: {name}')
+                return self.call_function(f.info, args, kwargs, f.bound)
             raise Unsupported(f'call to {name}: no contract and not declared inline')
         if isinstance(f, Builtin):
             return f.fn(self, *args, **kwargs)
